@@ -27,7 +27,7 @@ RULE = ('A scripted HTTP server on 127.0.0.1 (real sockets, real `requests`) ser
 EXHAUSTIVE = {'quick': True, 'thorough': True}
 EXHAUSTIVE_SCOPE = {'quick': 'all 351 scripted fault sequences of the quantifier',
                     'thorough': 'the same 351 plus sampled extended fault kinds'}
-FLOORS = {'quick': {'evaluations': 400, 'distinct_nontrivial': 200, 'monitors': {'M5.data_get': 300}},
+FLOORS = {'quick': {'evaluations': 420, 'distinct_nontrivial': 200, 'monitors': {'M5.data_get': 300}},
           'thorough': {'evaluations': 5000, 'distinct_nontrivial': 2000, 'monitors': {'M5.data_get': 3000}}}
 ASSUMPTIONS = ['loopback HTTP is available in the sandbox; proxies disabled via no_proxy',
                'when the checksum is unavailable only "an HTTP error raises" and "file = last body served" '
@@ -77,7 +77,12 @@ class Handler(BaseHTTPRequestHandler):
             State.log.append(('HEAD', self.path))
         if sc is None or sc.get('head') == 'fail':
             return self._send(500, head_only=True)
-        self._send(200, BODIES[sc['good']], head_only=True)
+        body = BODIES[sc['good']]
+        if sc.get('head') == 'short':          # a Content-Length that understates / overstates the body
+            body = body[:len(body) // 2]
+        elif sc.get('head') == 'long':
+            body = body + body
+        self._send(200, body, head_only=True)
 
     def do_GET(self):
         path = self.path
@@ -149,7 +154,7 @@ def run_shard(desc, ctx):
     extra = [{'data': dd, 'md5': 'correct', 'prior': pr, 'good': 'good', 'head': hd}
              for dd in (['corrupt_near'], ['corrupt_near', 'good'], ['corrupt_near', 'corrupt_near'],
                         ['truncated', 'good'], ['empty', 'good'], ['big_corrupt', 'big_good'])
-             for pr in ('absent', 'corrupt') for hd in ('ok', 'fail')]
+             for pr in ('absent', 'corrupt') for hd in ('ok', 'fail', 'short', 'long')]
     # served-but-oddly-formatted checksums (uppercase hex, an HTML page): only the central safety clause
     # is judged for these (a normal return must leave a file matching the published digest)
     extra += [{'data': dd, 'md5': mm, 'prior': pr, 'good': 'good', 'head': 'ok'}
